@@ -1,13 +1,19 @@
-"""C16 — layer-2 check (queued charts; see DESIGN §8)."""
-import queue_corr
+"""C16 — pending-event queues stay bounded, never block, keep lifo posts (queued charts and LockingDeque)."""
+import queue_corr, ldseq_corr
 
 
 def explore(run, lean):
-    queue_corr.explore(run, "C16", 800 if run.tier == "quick" else 12000)
-    run.extra["rule"] = ("random queued charts (<=8 states) whose handlers post/defer/recall/scribble, capacities 1-5 and 500, "
-                         "scripts of start_at + 3-14 client ops (post_fifo, post_lifo, defer, recall, next_rtc, complete_circuit); "
-                         "non-trivial = the script contains an operation the property speaks about; distinct by canonical JSON")
+    quick = run.tier == "quick"
+    queue_corr.explore(run, "C16", 500 if quick else 8000)
+    ldseq_corr.explore(run, 600 if quick else 10000)
+    run.extra["rule"] = ("(a) random queued charts whose handlers post/defer/recall, capacities 1-4 and 500, scripts of 3-14 client ops; "
+                         "(b) random single-thread operation sequences (append, appendleft, pop, popleft, clear, len) on a real "
+                         "LockingDeque at capacities 1-5 and 500, biased to full queues; every operation compared with the Lean "
+                         "model (result, deque, tokens, unfinished_tasks); distinct by canonical JSON")
 
 
 def replay(case):
-    return queue_corr.replay(case)
+    cc = case.get("case", case)
+    if "chart" in cc:
+        return queue_corr.replay(case)
+    return ldseq_corr.replay(case)
